@@ -47,6 +47,9 @@ def main(argv=None):
         traceback.print_exc()
         return 2
 
+    import logging
+    logging.disable(logging.CRITICAL)   # the code under test logs every generated fault
+
     if args.replay:
         return core.replay(args.property, args.replay)
     only = set(args.only.split(",")) if args.only else None
